@@ -953,7 +953,9 @@ fn migration(ctx: &Ctx) -> (u64, u64) {
     use vm_memory::mmap::MmapRegionBuilder;
     let mut schedules = 0u64;
     let mut nodes = 0u64;
-    for (kind, off, len) in [("write", 0usize, 8usize), ("write", 4, 4), ("write", 2, 4), ("write", 6, 8), ("write_obj-u64", 8, 8), ("store-u32", 4, 4), ("ref-store-u32", 6, 4), ("array-copy_from-u16", 2, 6), ("read_volatile_from", 3, 5)] {
+    for (kind, off, len) in [("write", 0usize, 8usize), ("write", 4, 4), ("write", 2, 4), ("write", 6, 8), ("write_obj-u64", 8, 8), ("store-u32", 4, 4), ("ref-store-u32", 6, 4), ("array-copy_from-u16", 2, 6), ("read_volatile_from", 3, 5),
+        ("write_slice", 3, 6), ("read_exact_volatile_from", 2, 7), ("slice-copy_from-u8", 1, 7), ("slice-copy_from-u32", 4, 8), ("array-store-u16", 6, 2),
+        ("copy_to_volatile_slice", 2, 10), ("array-copy_to_volatile_slice-u16", 2, 8)] {
         let stats = explore_seq(None, |ex| {
             let p = 4usize;
             let region = MmapRegionBuilder::new_with_bitmap(16, AtomicBitmap::new(16, NonZeroUsize::new(p).unwrap()))
@@ -977,6 +979,26 @@ fn migration(ctx: &Ctx) -> (u64, u64) {
                     "store-u32" => r1.store(0xA3A2_A1A0u32, a, std::sync::atomic::Ordering::SeqCst).unwrap(),
                     "ref-store-u32" => r1.as_volatile_slice().unwrap().get_ref::<u32>(off).unwrap().store(0xA3A2_A1A0),
                     "array-copy_from-u16" => r1.as_volatile_slice().unwrap().get_array_ref::<u16>(off, 3).unwrap().copy_from(&[0xA1A0, 0xA3A2, 0xA5A4]),
+                    "write_slice" => r1.write_slice(&data, a).unwrap(),
+                    "read_exact_volatile_from" => {
+                        let mut src: &[u8] = &data;
+                        r1.read_exact_volatile_from(a, &mut src, len).unwrap();
+                    }
+                    "slice-copy_from-u8" => r1.as_volatile_slice().unwrap().subslice(off, len).unwrap().copy_from(&data),
+                    "slice-copy_from-u32" => r1.as_volatile_slice().unwrap().subslice(off, len).unwrap().copy_from(&[0xA3A2_A1A0u32, 0xA7A6_A5A4]),
+                    "array-store-u16" => r1.as_volatile_slice().unwrap().get_array_ref::<u16>(off, 1).unwrap().store(0, 0xA1A0),
+                    "copy_to_volatile_slice" | "array-copy_to_volatile_slice-u16" => {
+                        // the source is ordinary (untracked) memory, the destination the tracked region
+                        let mut foreign = data.clone();
+                        // SAFETY: foreign outlives the slice
+                        let src = unsafe { VolatileSlice::new(foreign.as_mut_ptr(), len) };
+                        let dst = r1.as_volatile_slice().unwrap().subslice(off, len).unwrap();
+                        if kind == "copy_to_volatile_slice" {
+                            src.copy_to_volatile_slice(dst);
+                        } else {
+                            src.get_array_ref::<u16>(0, len / 2).unwrap().copy_to_volatile_slice(dst);
+                        }
+                    }
                     _ => {
                         let mut src: &[u8] = &data;
                         r1.read_volatile_from(a, &mut src, len).unwrap();
@@ -1023,7 +1045,7 @@ fn migration(ctx: &Ctx) -> (u64, u64) {
 pub fn run(prop: &'static str, tier: Tier, replay: Option<String>) -> i32 {
     let ctx = crate::new_ctx(prop, tier, "model_checking", &replay);
     let thorough = tier.thorough();
-    ctx.set_rule("E1, one enumeration judged by two oracles. (A) tracked VolatileSlices (plain RefSlice, RefSlice at a base offset, nested BaseSlice, ArcSlice, Option Some/None) of 16 and 24 bytes x page sizes {1,2,3,4,5,8,16,N+5} x every derivation chain of up to 2 (thorough 3) links (subslice, offset, split_at either half, get_slice, get_ref->to_slice, get_array_ref->to_slice / ref_at->to_slice; arguments from the boundary alphabet of the page size) x every write and read path of the container alphabet through the derived accessor x start bitmaps clean / checkerboard / all dirty; (B) one mmap region and (C) guest memory with two adjacent regions and a hole, page sizes as above: every route of the byte-access interface at every (address, length), descriptor reads through the real raw-fd adapter over interposed read(2) (full, short, failing after touching a prefix, EINTR), descriptor writes out of guest memory over interposed write(2) (full, short, EIO at once, ENOSPC after a prefix, EINTR, accepting nothing: nothing may be marked), accessors derived through the region/memory API, and write;reset;write histories; all histories of 3 (thorough 5) steps over an alphabet of 14 memory / reset / harvest / reset-range operations with memory and bitmap carried over (also on containers of 136 / 200 / 528 bytes whose bitmaps span two or three 64-page words, with writes and resets straddling the word boundary). C05: every byte that differs from the pre-operation snapshot must be dirty in the owning region's bitmap at the region's own offset; plus (E3) all interleavings of one tracked write (9 write paths) with one fetch-and-clear consumer that copies the reported pages - after a final pass the consumer's image must equal guest memory. C16: dirty-after == dirty-before U pages overlapping the bytes the reference model says were written, and in the histories a reset / reset-range / fetch-and-clear leaves exactly the other pages dirty and reports exactly what was dirty (a failing descriptor read may additionally mark its whole target). State = (memory contents, dirty set); every transition runs on the real objects.");
+    ctx.set_rule("E1, one enumeration judged by two oracles. (A) tracked VolatileSlices (plain RefSlice, RefSlice at a base offset, nested BaseSlice, ArcSlice, Option Some/None) of 16 and 24 bytes x page sizes {1,2,3,4,5,8,16,N+5} x every derivation chain of up to 2 (thorough 3) links (subslice, offset, split_at either half, get_slice, get_ref->to_slice, get_array_ref->to_slice / ref_at->to_slice; arguments from the boundary alphabet of the page size) x every write and read path of the container alphabet through the derived accessor x start bitmaps clean / checkerboard / all dirty; (B) one mmap region and (C) guest memory with two adjacent regions and a hole, page sizes as above: every route of the byte-access interface at every (address, length), descriptor reads through the real raw-fd adapter over interposed read(2) (full, short, failing after touching a prefix, EINTR), descriptor writes out of guest memory over interposed write(2) (full, short, EIO at once, ENOSPC after a prefix, EINTR, accepting nothing: nothing may be marked), accessors derived through the region/memory API, and write;reset;write histories; all histories of 3 (thorough 5) steps over an alphabet of 14 memory / reset / harvest / reset-range operations with memory and bitmap carried over (also on containers of 136 / 200 / 528 bytes whose bitmaps span two or three 64-page words, with writes and resets straddling the word boundary). C05: every byte that differs from the pre-operation snapshot must be dirty in the owning region's bitmap at the region's own offset; plus (E3) all interleavings of one tracked write (16 write paths, incl. the typed and the slice-to-slice copies) with one fetch-and-clear consumer that copies the reported pages - after a final pass the consumer's image must equal guest memory. C16: dirty-after == dirty-before U pages overlapping the bytes the reference model says were written, and in the histories a reset / reset-range / fetch-and-clear leaves exactly the other pages dirty and reports exactly what was dirty (a failing descriptor read may additionally mark its whole target). State = (memory contents, dirty set); every transition runs on the real objects.");
     ctx.assume("raw-pointer writes are exempt as documented; marks through a bare BaseSlice with wrapping offsets are outside both oracles");
     if ctx.replay_of.is_some() {
         println!("replay: the enumeration is deterministic; re-running the quick tier and reporting whether the recorded key fails again");
